@@ -764,6 +764,14 @@ def run_all(tier, seed):
         except LayoutError as e:
             P.add("C05", "layout:String:capacity", problem=str(e))
     check_refs(X, sl, rnd, P)
+    # contract of iter_index assumed by the array writer proofs
+    from . import axioms_native
+
+    n_ii, bad_ii = axioms_native.check_iter_index(3 if tier == "quick" else 4)
+    P.evals += n_ii
+    for bd in bad_ii[:3]:
+        for prop in ("C05", "C03", "C01"):
+            P.add(prop, "iter_index:memory-order-contract", **{k: str(v) for k, v in bd.items()})
     return P, distinct, samples
 
 
